@@ -318,7 +318,7 @@ func specKInput(st int, n uint8) int {
 //@ ensures [C01.k-nil] isnil(g.hash) ==> isnil(result)
 //@ ensures [C01.k-input] !isnil(g.hash) ==> hIsDigest(result, old(specKInput(hState(g.hash), uint8(n)))) && len(result) == hSizeOf(g.hash) && hState(g.hash) == hInit(g.hash)
 //@ invariant 0 [k.fill] 0 <= iter && iter <= 20 && len(constant) == 20 && forall(qk, 0, iter, constant[qk] == uint8(n))
-//@ decreases 0 20 - i
+//@ decreases 0 20 - iter
 
 //@ func truncatedHash.Size
 //@ props C01
